@@ -31,11 +31,11 @@ var c10Funcs = [][2]string{
 	{"Runtime", "promiseProto_finally"}, {"Runtime", "promise_all"}, {"Runtime", "promise_allSettled"},
 	{"Runtime", "promise_any"}, {"Runtime", "promise_race"}, {"Runtime", "NewPromise"},
 	{"Runtime", "leave"}, {"Runtime", "leaveAbrupt"}, {"asyncRunner", "step"}, {"asyncRunner", "onFulfilled"},
-	{"asyncRunner", "onRejected"},
+	{"asyncRunner", "onRejected"}, {"asyncRunner", "start"},
 }
 
 var c10Watch = map[string]bool{"alreadyResolved": true, "alreadyCalled": true, "jobs": true, "fulfill": true,
-	"remainingElementsCount": true, "handlerResult": true}
+	"remainingElementsCount": true, "handlerResult": true, "entered": true}
 
 type c10Walker struct {
 	fset *token.FileSet
